@@ -187,6 +187,7 @@ type ConfirmedViolation struct {
 }
 
 func runCheck(o *checkOpts) *CheckReport {
+	startMemWatchdog()
 	rep := &CheckReport{Prop: o.prop, Tier: o.tier, Seed: o.seed}
 	files, err := findHarnessFiles(filepath.Join(o.verif, "harness", o.prop))
 	if err != nil {
